@@ -16,6 +16,8 @@ RULE = ('names 0..6 components of any type (incl. an existing ParametersSha256 c
         'MetaInfo field combinations, payload sizes 0/1/small/251..254/300 and sizes that put the Content, the '
         'packet value and the name length on 252/253/254/65535/65536, 70000; signers: none, digest, HMAC, RSA-2048, '
         'ECDSA P-256/384/521 (variable DER length), Ed25519, null, and a synthetic signer sweeping 0<=actual<=reserved<=300. '
+        'The name is handed over as the caller\'s own list object (components as bytes, some as URI strings) and must be unchanged '
+        'after the call; one list object is used for an Interest with parameters, then a Data, then a plain Interest. '
         'Signer size contract: reserved sizes of real signer objects (ECDSA on P-192/224/256/384/521, Ed25519, HMAC, digest, null) '
         'against the translated arithmetic; real signatures written into a buffer of exactly the reserved size, r and s read back '
         'from the DER bytes and the DER length model compared with the real length, extreme r/s on every sign-bit boundary. '
@@ -27,6 +29,11 @@ ASSUMPTIONS = ['SHA-256 and the signature primitives are external (hashlib / pyc
 def shipped(label):
     """labels of the signers the library ships (and 'none'); the synthetic signer may break the size contract on purpose"""
     return not label.startswith('synthetic')
+
+
+def as_components(name):
+    from ndn.encoding import Component
+    return [bytes(Component.from_str(c)) if isinstance(c, str) else bytes(c) for c in name]
 
 
 def conv_interest_result(r):
@@ -41,12 +48,20 @@ def one_interest(ctx, M, name, ip, app, signer, label):
     rec = P.Rec(signer) if signer is not None else None
     case = {'kind': 'interest', 'signer': label, 'name': list(name), 'params': {k: v for k, v in ip.items() if k != 'forwarding_hint'},
             'hints': len(ip['forwarding_hint']), 'app_len': None if app is None else len(app)}
+    given_name = list(name)             # the caller's own list object, handed over as it is
+    given_hints = [list(n) for n in ip['forwarding_hint']]
     try:
         wire, final = make_interest(name, InterestParam(**ip), app, rec, need_final_name=True)
         wire = bytes(wire)
         r = 'ok'
     except Exception as e:   # noqa
         r = type(e).__name__
+    # building a packet does not edit what it was built from: the caller may use the same name object again
+    if list(name) != given_name or [list(n) for n in ip['forwarding_hint']] != given_hints:
+        ctx.violation('make_interest', 'argument-edited',
+                      f'the name list handed to make_interest has {len(name)} components afterwards, {len(given_name)} before '
+                      '(a packet built from it next carries the edit)', {**case, 'name_after': list(name)})
+    name = as_components(given_name)     # from here on: the name the caller meant, as encoded components
     sig = None
     sigval = b''
     if signer is not None:
@@ -109,11 +124,16 @@ def one_data(ctx, M, name, meta_args, content, signer, label):
     mdesc = D.reflect_class(F.MetaInfo)
     meta_val = D.from_py(mdesc, meta) if meta is not None else None
     case = {'kind': 'data', 'signer': label, 'name': list(name), 'meta': meta_args, 'content_len': None if content is None else len(content)}
+    given_name = list(name)
     try:
         wire = bytes(make_data(name, meta, content, rec))
         r = 'ok'
     except Exception as e:   # noqa
         r = type(e).__name__
+    if list(name) != given_name:
+        ctx.violation('make_data', 'argument-edited', 'the name list handed to make_data was edited by the call',
+                      {**case, 'name_after': list(name)})
+    name = as_components(given_name)
     sig = None
     sigval = b''
     if signer is not None:
@@ -238,6 +258,32 @@ def run(ctx):
             one_data(ctx, M, [G.tlv(8, b'd')], {}, content, sg, 'synthetic')
             one_interest(ctx, M, [G.tlv(8, b'i')], dict(can_be_prefix=False, must_be_fresh=True, nonce=7, lifetime=None,
                                                        hop_limit=None, forwarding_hint=[]), content, sg, 'synthetic')
+    # 3b. ONE name object used for several packets in a row (Interest with parameters / signed, then Data, then a plain Interest):
+    #     every packet is what a fresh copy of the name would have given
+    for i in range(ctx.n(40, 600)):
+        base = G.name_of_tv([tv for tv in G.rand_name_tv(rng, 5) if tv[0] != 2])
+        shared = list(base)
+        if shared and rng.random() < 0.5:
+            from ndn.encoding import Component as _C
+            j = rng.randrange(len(shared))
+            try:
+                shared[j] = _C.to_str(shared[j])       # a component given as URI text
+                if bytes(_C.from_str(shared[j])) != bytes(base[j]):
+                    shared[j] = base[j]
+            except Exception:   # noqa
+                shared[j] = base[j]
+        label, sg, _ = rng.choice(signers)
+        ipp = P.rand_interest_args(rng)[1]
+        for step in range(3):
+            snapshot = list(shared)
+            if step == 0:
+                one_interest(ctx, M, shared, ipp, b'params', sg, label + '.shared-name')
+            elif step == 1:
+                one_data(ctx, M, shared, {}, b'x', sg, label + '.shared-name')
+            else:
+                one_interest(ctx, M, shared, ipp, None, None, 'none.shared-name')
+            if shared != snapshot:
+                shared = snapshot          # reported by the call above; go on with the name the caller meant
     # 4. the size contract of the shipped signers (Model/SignerSizes.v, Generated/SignerSizes.v; C01_ecdsa_signature_fits)
     signer_sizes(ctx, M, keys)
 
